@@ -21,6 +21,11 @@
  * With -DWITH_GLUE (one binary per corpus schema) the GENERATED builder API of that schema is reachable as well:
  *   Gs:<t> <T>_start   Ge:<t> <T>_end   Ga:<t>:<fi>:<hex> <T>_<f>_add (scalar: default elision applies; struct: by pointer)
  *   Gf:<t>:<fi>:<hex> <T>_<f>_force_add   Go:<t>:<fi>:<r> <T>_<f>_add(ref)   Gu:<t>:<fi>:<code>:<r|-> union   Gv:<t>:<fi>:<rt>:<rv> union vector
+ *   GS:<t>:<fi>:<style>:<hex> string field  c _create, s _create_str, n _create_strn, b _start/append/_end, k _clone, l _slice   (1 result slot, value 0)
+ *   GV:<t>:<fi>:<style>:<count>:<hex> vector field  c _create, p _push, e _extend, a _append, t append+_truncate                 (1 slot)
+ *   GW:<t>:<fi>:<style>/<hex>,..  string vector field: _start, per element p _push(create) c _push_create s _push_create_str n _push_create_strn
+ *                                  b _push_start/append/_push_end k _push_clone l _push_slice, _end                                 (elements + 1 slots)
+ *   GX:<t>:<fi>:<code>/<style>/<hex|r>,..  union vector field: _start, <Member>_push* per element (string members as for GW, r = ref), _end (strings + 2 slots)
  *   Gc:<t>:<arg>,.. <T>_create(all fields)   Gn:<t>:<fi>:<hex> <T>_<f>_create_as_root (nested struct root from its members)
  */
 #include "hx.h"
